@@ -47,6 +47,7 @@ EXPECTED_MISSES = {
 
 # (id, property, expected rule prefix, edits)
 FIRE: List[Tuple[str, str, str, List[Tuple[str, str, str]]]] = [
+    ("comment-escaped-quote-escaped-again", "C03", "P11", [(MD, "                body = lines[-1][:-1]\n                # a quote that the replacement above already escaped (odd number of\n                # backslashes in front of it) must not get a second backslash\n                if (len(body) - len(body.rstrip(\"\\\\\"))) % 2 == 0:\n                    lines[-1] = body + '\\\\\"'\n", "                lines[-1] = lines[-1][:-1] + '\\\\\"'\n")]),
     ("sanitize-name-keyword-test-lowercased", "C19", "I1", [("src/betterproto/casing.py", "    if keyword.iskeyword(value):\n", "    if keyword.iskeyword(value.lower()):\n")]),
     ("reduce-shortcut-for-falsy", "C07", "V11", [(I, "        return (self.__class__.FromString, (bytes(self),))\n", "        if not self and not self._unknown_fields:\n            return (self.__class__, ())\n        return (self.__class__.FromString, (bytes(self),))\n")]),
     ("reduce-shortcut-for-falsy/C14", "C14", "V11", [(I, "        return (self.__class__.FromString, (bytes(self),))\n", "        if not self and not self._unknown_fields:\n            return (self.__class__, ())\n        return (self.__class__.FromString, (bytes(self),))\n")]),
